@@ -233,7 +233,11 @@ Fixpoint flat_adapter_loop (fuel : nat) (maxlen : Z) (final : errk) (s : bytes) 
   end.
 
 (** * FSimpleServer.accept: one request frame at a time to the processor.
-    [process frame] = whether processor.Process returned nil (the connection goes on) *)
+    [process frame] = whether processor.Process returned nil (the connection goes on).
+    Every end of the loop closes the connection (defer client.Close(), repair aa2ee4d; before it
+    the socket stayed open after a frame over the limit or a processor error). A peer that
+    neither sends nor closes is the terminal error ETimedOut: the only end that is not reached,
+    i.e. the only case in which the connection stays open (judge kind 24). *)
 Inductive accept_end :=
 | AcceptEOF                     (* END_OF_FILE: return nil *)
 | AcceptReadErr (e : errk)      (* return err *)
